@@ -39,6 +39,7 @@ func init() {
 			{"C02-R7", "debounce single-flight protocol", c02r7},
 			{"C02-R8", "a global push is enqueued for every registered connection (shared with C05-R2b)", func(c *Ctx) { startPushFanOut(c); c.Floor(2) }},
 			{"C02-R9", "the quiet timer of a batch is armed by its first event only", c02r9},
+			{"C02-R10", "Forced is consulted before a request is narrowed by its keys", c02r10},
 		},
 	})
 }
@@ -1586,3 +1587,4 @@ func c02r9(c *Ctx) {
 	c.Check("debounce arms the quiet timer in its event arm", fn.Pos(), n >= 1 && len(first) >= 1, "no timer assignment / no `debouncedEvents == 0` test found in debounce")
 	c.Floor(2)
 }
+
